@@ -12,7 +12,7 @@ type Snippet interface {
 
 func Fragments(ctx context.Context, s Snippet) iter.Seq[string] {
 	return func(yield func(string) bool) {
-		if s.IsNil() {
+		if s == nil || s.IsNil() {
 			return
 		}
 
@@ -37,7 +37,7 @@ func (Snippets) String() string {
 func (f Snippets) Frag(ctx context.Context) iter.Seq[string] {
 	return func(yield func(string) bool) {
 		for c := range f {
-			if c.IsNil() {
+			if c == nil || c.IsNil() {
 				continue
 			}
 
